@@ -3,6 +3,7 @@ CONSTANTS
   Programs <- TracePrograms
   ShardOf <- TraceShardOf
   InsertOverwrites = FALSE
+  MapSkipsHeldShard = FALSE
 SPECIFICATION TraceSpec
 INVARIANT TraceDone
 CHECK_DEADLOCK FALSE
